@@ -108,6 +108,21 @@ def fmt_trace(tr):
     return ' ; '.join('in_tie=%s t=%d %s -> %s' % (w, t, 'LAST' if last else 'mid', c) for w, t, last, c in tr[-4:])
 
 
+def check_own_line(rep, repo, rule, what):
+    """the preference text on an agent's line is computed for THAT agent: no field of a line reads a variable carried over
+    from the line of an earlier agent (an empty or skipped list must not inherit the previous one's text)"""
+    from ..writerfacts import writer_facts, stale_line_fields
+    from ..loader import AnalysisError
+    for cls in ('Generator_ha_sm_hr', 'Generator_spa'):
+        try:
+            wf_ = writer_facts(repo, cls, True)
+            stale = stale_line_fields(wf_)
+        except (AnalysisError, Unknown):
+            continue                     # the writer itself is judged by C08 / C09
+        rep.check(not stale, rule, wf_.ci.where, '%s: every field of an agent\'s line is computed in that agent\'s own iteration (%s)' % (what, cls),
+                  got=['line kind %d field %d reads %s as the previous line left it' % s_ for s_ in stale[:3]] or 'no carried value', want='set for every agent', construct='%s line text carried over from the previous agent' % cls)
+
+
 def run(rep, repo, tier):
     for k, v in RULES.items():
         rep.rule(k, v)
@@ -118,6 +133,7 @@ def run(rep, repo, tier):
                   want='>= 1', construct='writer call sites in %s' % cls)
     # no other function of the generator emits parentheses
     rf = find_reader(repo)
+    check_own_line(rep, repo, 'C13.R5', 'the decorated list on a line is the writer\'s output for that line')
     check_indicators(rep, repo)
     check_call_sites(rep, repo, fw, wf, rf)
     try:
